@@ -85,7 +85,8 @@ struct C03 : Scenario {
             double reach = (amp + (b.mix > 0 ? 0.85 : 0)) * (1 + theta) + 4.6 * seff;
             if (b.shape == 3) reach = (amp + b.s1 + 2.5 * delta + 0.6) * (1 + theta) + 1.2 * b.s1 + (c.interp == 2 ? 4.6 * std::sqrt((c.steps + 1) * delta * delta / 4) : 0);   // (linear interpolation broadens by delta^2/8 per map)
             double half = c.pssize / 2 - std::max(std::fabs(c.shiftx), std::fabs(c.shifty)) * delta;
-            if (half - reach >= 0.3 && std::min(b.s1, b.mix > 0 ? b.s2 : b.s1) / delta >= (b.shape ? 3.0 : 2.0)) break;
+            // (sharp-edged shapes: the interpolation's ripples run ahead of the edge by several cells; they must not reach the border)
+            if (half - reach >= 0.3 + (b.shape ? 3 * delta : 0) && std::min(b.s1, b.mix > 0 ? b.s2 : b.s1) / delta >= (b.shape ? 3.0 : 2.0)) break;
             if (tries > 60 && c.interp == 2) c.interp = 4;
             if (tries > 100) { c.shiftx = c.shifty = 0; c.pssize = 16; delta = c.pssize / (c.grid - 1); }
             if (tries > 150) { c.grid = std::max(c.grid, 48L); delta = c.pssize / (c.grid - 1); }
@@ -114,7 +115,7 @@ struct C03 : Scenario {
             double reach = (amp + (b.mix > 0 ? 0.85 : 0)) * (1 + theta0) + 4.6 * seff;
             if (b.shape == 3) reach = (amp + b.s1 + 2.5 * delta + 0.6) * (1 + theta0) + 1.2 * b.s1 + (cfg.interp == 2 ? 4.6 * std::sqrt((derive(cfg).steps + 1) * delta * delta / 4) : 0);
             double half = cfg.pssize / 2 - std::max(std::fabs(cfg.shiftx), std::fabs(cfg.shifty)) * delta;
-            if (!(half - reach >= 0.25 && smin / delta >= (b.shape ? 2.9 : 1.95))) { o.discard("start distribution not resolved by the mesh or not clear of the border (outside the property's provisos)"); return o; }
+            if (!(half - reach >= 0.25 + (b.shape ? 2.9 * delta : 0) && smin / delta >= (b.shape ? 2.9 : 1.95))) { o.discard("start distribution not resolved by the mesh or not clear of the border (outside the property's provisos)"); return o; }
         }
         auto data = blob_data(d, n, b);
         if (!h5_write_f32(rc.workdir + "/start.h5", "/PhaseSpace/data", {1, n, n}, data)) { o.set_infra("cannot write start file"); return o; }
